@@ -5,6 +5,8 @@ package vx
 import (
 	"encoding/json"
 	"fmt"
+	"os"
+	"strings"
 	"testing"
 
 	"github.com/restic/restic/internal/verifshim/vh"
@@ -36,6 +38,16 @@ func Explore(r *vh.Run, t *testing.T, name string, sc xplore.Scenario, opt xplor
 			opt.Expired = r.Expired
 		}
 	}
+	if skips := loadSkips(); len(skips) > 0 {
+		opt.Skip = func(prefix []string) bool {
+			for _, sk := range skips {
+				if sk.Scenario == name && strings.Join(sk.Trace, "\x00") == strings.Join(prefix, "\x00") {
+					return true
+				}
+			}
+			return false
+		}
+	}
 	opt.BeforeExec = func(prefix []string) {
 		r.Checkpoint(name, Detail{Scenario: name, Trace: append([]string{}, prefix...)})
 	}
@@ -54,10 +66,29 @@ func Explore(r *vh.Run, t *testing.T, name string, sc xplore.Scenario, opt xplor
 		}
 		r.Cap(fmt.Sprintf("scenario %s: a replayed prefix diverged (runtime nondeterminism not owned by the scheduler); its subtree was not expanded", name))
 	}
+	if st.Skipped > 0 {
+		r.Count("schedules_skipped_after_process_crash", st.Skipped)
+		r.Cap(fmt.Sprintf("scenario %s: %d schedule(s) that crashed the test process (panic inside restic) were skipped together with their subtrees", name, st.Skipped))
+	}
 	if st.Capped {
 		r.Cap(fmt.Sprintf("scenario %s: exploration stopped by the wall-clock/execution cap", name))
 	}
 	return st
+}
+
+// loadSkips reads the schedules the driver asks this shard to step around (VERIF_SKIP = JSON file).
+func loadSkips() []Detail {
+	p := os.Getenv("VERIF_SKIP")
+	if p == "" {
+		return nil
+	}
+	buf, err := os.ReadFile(p)
+	if err != nil {
+		return nil
+	}
+	var l []Detail
+	_ = json.Unmarshal(buf, &l)
+	return l
 }
 
 // Violation records a violation found in execution x of the named scenario.
